@@ -238,9 +238,9 @@ func RunC14(h *MSHist, r *sim.Rand, rep Reporter) {
 				continue
 			}
 			if o.Del {
-				delete(model[o.Store], o.Key)
+				delete(model[o.Store], string(o.Key))
 			} else {
-				model[o.Store][o.Key] = o.Val
+				model[o.Store][string(o.Key)] = o.Val
 			}
 		}
 		var cid stypes.CommitID
